@@ -48,9 +48,13 @@ impl Backend {
                 // Selection range is the fixture name
                 let selection_range = Self::create_range(line, start_char, line, end_char);
 
-                // Full range includes the entire function body
+                // Full range includes the entire function body. The protocol requires the
+                // selection range to lie inside it: a definition that ends on its own first
+                // line (one-line function, assignment-style fixture) extends to the end of
+                // the name instead of being empty.
                 let end_line = Self::internal_line_to_lsp(definition.end_line);
-                let range = Self::create_range(line, 0, end_line, 0);
+                let range_end_char = if end_line == line { end_char } else { 0 };
+                let range = Self::create_range(line, 0, end_line, range_end_char);
 
                 // Build detail string with return type if available
                 let detail = definition
